@@ -39,6 +39,7 @@ fn families() -> Vec<(&'static str, fn(&mut Rng, usize) -> Case)> {
         ("attempt.run", fam_attempt::gen_attempts),
         ("sched.run", fam_sched::gen_sched_case),
         ("sched.lazy", fam_sched::gen_sched_lazy_case),
+        ("sched.custom", fam_sched::gen_sched_custom_case),
         ("outline.expand", fam_outline::gen_expand),
         ("norm.run", fam_norm::gen_norm),
         ("zoo.reg", zoo::gen_reg),
